@@ -96,7 +96,7 @@ def _norm_real_out(ret):
             hops.append((h['ttl'], None, False, 0))
     return ('ok', tuple(hops))
 
-def trace_engine(ctx, mc_cfg, traces, drift):
+def trace_engine(ctx, mc_cfg, traces, drift, module='TraceEngine'):
     """Event-level trace validation (L2): every recorded line of the real parallel engine must be a step of EngineParallel.tla
     (TraceEngine.tla: logged events bound to spec actions, internal actions silent). A rejected trace is spec drift."""
     import re, shutil
@@ -107,11 +107,12 @@ def trace_engine(ctx, mc_cfg, traces, drift):
             consts[m.group(1)] = m.group(2)
     cfgname = 'TraceEngine_run.cfg'
     cfgtext = ('SPECIFICATION TSpec\nCONSTANTS\n' + ''.join('  %s = %s\n' % kv for kv in consts.items()) +
-               '  Scripts = {}\n  CancelTimes = {}\n  SupportsParallel = TRUE\nCONSTRAINT HighWater\nPOSTCONDITION TraceAccepted\nCHECK_DEADLOCK FALSE\n')
+               '  Scripts = {}\n  CancelTimes = {}\n' + ('  SupportsParallel = TRUE\n' if module == 'TraceEngine' else '') +
+               'CONSTRAINT HighWater\nPOSTCONDITION TraceAccepted\nCHECK_DEADLOCK FALSE\n')
     total = 0
     from concurrent.futures import ThreadPoolExecutor
     def one(tp):
-        return tp, vt.run_tlc('TraceEngine', cfg=cfgname, env={'VT_TRACE': tp}, workers=1, timeout=900, heap='2g', deque=True, files={cfgname: cfgtext})
+        return tp, vt.run_tlc(module, cfg=cfgname, env={'VT_TRACE': tp}, workers=1, timeout=900, heap='2g', deque=True, files={cfgname: cfgtext})
     with ThreadPoolExecutor(max_workers=min(len(traces), vt.NCPU)) as ex:
         results = list(ex.map(one, traces))
     for tp, r in results:
@@ -185,8 +186,7 @@ def engine_family(ctx, prop, module, cfg, engine, obs_props, simulate=None):
         ctx.samples.append({'scenario': {k: v for k, v in s0.items() if k != '_key'}, 'allowed_outputs': allowed[s0['_key']][1][:2],
                             'real_events': [{k: v for k, v in e.items() if k not in ('gsample',)} for e in evs.get(s0['id'], [])][:25]})
     viol = vt.observe(ctx, traces, obs_props)
-    if engine == 'parallel':
-        trace_engine(ctx, cfg, traces, drift)
+    trace_engine(ctx, cfg, traces, drift, module='TraceEngine' if engine == 'parallel' else 'TraceEngineSerial')
     ctx.extra['spec_drift'] = len(drift)
     vt.confirm_and_report(ctx, {k: {kk: vv for kk, vv in v.items() if kk != '_key'} for k, v in by_id.items()}, viol, obs_props)
 
@@ -380,10 +380,33 @@ def check_C19(ctx):
                 '; non-trivial = the parameter set is not the default one (all are)', nontrivial=lambda s, es: True)
     vt.write_evidence(ctx, 'model_checking', ctx_rule(ctx), exhaustive=True)
 
+def apalache_alloc(ctx):
+    """Unbounded-value safety of the allocator by an inductive invariant (Apalache): Init => IndInv, IndInv /\\ Next => IndInv',
+    IndInv => Disjoint16 (the last one only in the thorough tier: 25 s). A solver timeout is inconclusive (exit 2), never a verdict."""
+    import shutil, tempfile
+    obligations = [('Init => IndInv', ['--init=Init', '--inv=IndInv', '--length=0']),
+                   ("IndInv /\\ Next => IndInv'", ['--init=IndInit', '--inv=IndInv', '--length=1'])]
+    if not ctx.quick():
+        obligations.append(('IndInv => Disjoint16', ['--init=IndInit', '--inv=Disjoint16', '--length=0']))
+    done = []
+    for name, args in obligations:
+        d = tempfile.mkdtemp(prefix='vt-apa-')
+        try:
+            shutil.copy(os.path.join(vt.VERIF, 'spec', 'AllocApa.tla'), d)
+            p = vt.sh(['timeout', '600', 'apalache-mc', 'check'] + args + ['--out-dir=' + os.path.join(d, 'out'), 'AllocApa.tla'], cwd=d)
+            if 'The outcome is: NoError' not in p.stdout:
+                raise Infra('Apalache obligation %r not discharged: %s' % (name, p.stdout[-600:]))
+            done.append(name)
+        finally:
+            shutil.rmtree(d, ignore_errors=True)
+    ctx.extra['apalache_obligations'] = {'module': 'AllocApa', 'obligations': len(obligations), 'discharged': len(done), 'names': done,
+                                         'note': 'inductive invariant over unbounded integers, up to 5 live runs (Gen)'}
+
 def check_C11(ctx):
     vt.tlc_design(ctx, 'Alloc', cfg='Alloc_q.cfg' if ctx.quick() else 'Alloc.cfg', timeout=900,
                   label='identifier allocators: every interleaving of concurrent fetch-and-add callers from bases at wrap-around')
     vt.tlc_design(ctx, 'MatcherMC', label='matchers: C11_Design - a concurrent run never matches a genuine reply to another run')
+    apalache_alloc(ctx)
     scen = vt.tlc_generate(ctx, 'GenRun', 'C11', 0)
     if ctx.quick():
         mixes = [s for s in scen if '/mix/' in s['id']]
